@@ -12,3 +12,4 @@ import MJ.Props.C06
 #print axioms MJ.C06.missing_is_error_not_truncation
 #print axioms MJ.C06.include_first_existing
 #print axioms MJ.C06.import_exports_toplevel
+#print axioms MJ.C06.import_of_extending_template
